@@ -317,6 +317,7 @@ def fill_command(chk, tier, rng):
             pandas.DataFrame.to_string, pandas.read_table = fake_to_string, read_table
             ex = X.Explorer(max_paths=32, name="C17:fill")
             ex.prefer = FC.no_drop_cut
+            ex.generic_eq = True
 
             def run():
                 out.seek(0)
